@@ -96,9 +96,17 @@ fn esc_case(prop: &str, mode: char, line: &[u8], stream_tag: &str) -> CaseRec {
         }
     };
     // the kind it is written as
+    // independent restatement of the guard: a tailing " (no-eol)" of the escaped text has its blank written \x20
+    let guarded = match ept.strip_suffix(" (no-eol)") {
+        Some(body) => format!("{body}\\x20(no-eol)"),
+        None => ept.clone(),
+    };
     let marked = if w == ept {
         false
+    } else if w == format!("{guarded} (escaped)") {
+        true
     } else if w == format!("{ept} (escaped)") {
+        // the pre-c1bf05c shape: the escaped rule will strip the content's " (no-eol)"
         true
     } else {
         fails.push(("C11:shape".into(), format!("escaped_expectation is neither the escaped rendering nor the rendering + marker: {w:?}")));
@@ -133,6 +141,9 @@ fn esc_case(prop: &str, mode: char, line: &[u8], stream_tag: &str) -> CaseRec {
             }
             let m1 = exp.matches(&with_lf(t, 1));
             let m2 = exp.matches(t);
+            if marked && w.ends_with(" (no-eol) (escaped)") {
+                fails.push(("C11:no-eol-suffix-stripped".into(), format!("{text:?}: the escaped text ends in \" (no-eol)\", which EscapedRule::make strips")));
+            }
             if line_ok {
                 let noeol = marked && ept.ends_with(" (no-eol)");
                 let class = if noeol { "C11:no-eol-suffix-stripped" } else { "C11:not-lossless" };
@@ -357,7 +368,7 @@ pub fn run(ctx: &Ctx, prop: &str) {
             let n = rng.range(0, 12);
             (0..n).map(|_| if rng.chance(1, 2) { *rng.pick(&ALPHA3) } else { rng.below(256) as u8 }).filter(|b| *b != b'\n').collect()
         };
-        if rng.chance(1, 50) {
+        if rng.chance(1, 10) {
             // the escaped form ending in " (no-eol)"
             line.push(1);
             line.extend_from_slice(b" (no-eol)");
@@ -368,6 +379,22 @@ pub fn run(ctx: &Ctx, prop: &str) {
             }
         }
         Some(esc_case(prop, mode, &line, "random"))
+    });
+    // 4b. regression for the former finding: contents that end like the no-eol modifier (or nearly)
+    const TAILS: [&[u8]; 10] = [b" (no-eol)", b"  (no-eol)", b"(no-eol)", b" (no-eol) (no-eol)", b"\\x20(no-eol)", b"\\ (no-eol)", b" (no-eol) ", b" (no-eol", b"\t(no-eol)", b" (no-eol) (escaped)"];
+    ctx.run_stream("esc-no-eol-tails-exhaustive", 2 * (1 + 24 + 576) * 10, true, |idx| {
+        let mode = if idx % 2 == 0 { 'a' } else { 'u' };
+        let tail = TAILS[(idx / 2 % 10) as usize];
+        let i = idx / 20;
+        let mut line: Vec<u8> = if i == 0 {
+            vec![]
+        } else if i <= 24 {
+            vec![ALPHA3[(i - 1) as usize]]
+        } else {
+            vec![ALPHA3[((i - 25) / 24) as usize], ALPHA3[((i - 25) % 24) as usize]]
+        };
+        line.extend_from_slice(tail);
+        Some(esc_case(prop, mode, &line, "noeol-tail"))
     });
     // 5. the decoder alone on arbitrary (also malformed) expressions
     unesc_streams(ctx, prop);
